@@ -318,7 +318,7 @@ const agg2CmpBodyRaw = `// check to see if anything needs to be created
 `
 
 const agg2MinMaxBodyRaw = `// check to see if anything needs to be created
-	if reuse == nil{
+	if safe && reuse == nil{
 		{{if .VV -}}
 		if swap{
 			reuse = NewDense(b.Dtype(), b.Shape().Clone(), WithEngine(e))
@@ -341,27 +341,27 @@ const agg2MinMaxBodyRaw = `// check to see if anything needs to be created
 			err = e.E.{{.Name}}Iter(typ, dataA, dataB, ait, bit)
 			retVal = a
 		{{if .VV -}}
-		case  safe && reuse != nil:
+		case reuse != nil:
 			storage.CopyIter(typ,dataReuse,dataA, iit, ait)
 			ait.Reset()
 			iit.Reset()
 			err = e.E.{{.Name}}Iter(typ, dataReuse, dataB, iit, bit)
 			retVal = reuse
 		{{else -}}
-		case safe && reuse != nil && !leftTensor:
+		case reuse != nil && !leftTensor:
 			storage.CopyIter(typ,dataReuse,dataB, iit, bit)
 			bit.Reset()
 			iit.Reset()
 			err = e.E.{{.Name}}Iter(typ, dataA, dataReuse, ait, bit)
 			retVal = reuse
-		case safe && reuse != nil && leftTensor:
+		case reuse != nil && leftTensor:
 			storage.CopyIter(typ,dataReuse,dataA, iit, ait)
 			ait.Reset()
 			iit.Reset()
 			err = e.E.{{.Name}}Iter(typ, dataReuse, dataB, iit, bit)
 			retVal = reuse
 		{{end -}}
-		default: // safe && bool
+		default:
 			panic("Unreachable")
 		}
 		{{if not .VV -}}
@@ -377,12 +377,12 @@ const agg2MinMaxBodyRaw = `// check to see if anything needs to be created
 	// handle special case where A and B have both len 1
 	if len(dataA.Raw) == int(typ.Size()) && len(dataB.Raw) == int(typ.Size()) {
 		switch {
-		case safe && reuse != nil && leftTensor:
+		case reuse != nil && leftTensor:
 			storage.Copy(typ,dataReuse,dataA)
 			err = e.E.{{.Name}}(typ, dataReuse, dataB)
 			retVal = reuse
 			return
-		case safe && reuse != nil && !leftTensor:
+		case reuse != nil && !leftTensor:
 			storage.Copy(typ,dataReuse,dataB)
 			err = e.E.{{.Name}}(typ, dataReuse, dataA)
 			retVal = reuse
@@ -395,18 +395,24 @@ const agg2MinMaxBodyRaw = `// check to see if anything needs to be created
 	switch {
 		case !safe  && reuse == nil:
 			err = e.E.{{.Name}}(typ, dataA, dataB)
+			{{if not .VV -}}
+			if !leftTensor && len(dataA.Raw) == int(typ.Size()) && len(dataB.Raw) == int(typ.Size()) {
+				// both have one element: the kernel has put the result into the scalar
+				storage.Copy(typ, dataB, dataA)
+			}
+			{{end -}}
 			retVal = a
 		{{if .VV -}}
-		case  safe && reuse != nil:
+		case reuse != nil:
 			storage.Copy(typ,dataReuse,dataA)
 			err = e.E.{{.Name}}(typ, dataReuse, dataB)
 			retVal = reuse
 		{{else -}}
-		case safe && reuse != nil && leftTensor:
+		case reuse != nil && leftTensor:
 			storage.Copy(typ,dataReuse,dataA)
 			err = e.E.{{.Name}}(typ, dataReuse, dataB)
 			retVal = reuse
-		case safe && reuse != nil && !leftTensor:
+		case reuse != nil && !leftTensor:
 			storage.Copy(typ,dataReuse,dataB)
 			err = e.E.{{.Name}}(typ, dataA, dataReuse)
 			retVal = reuse
